@@ -119,12 +119,14 @@ def op_faults(sx, tt, op, kinds, lengths):
     oldlen = 5
     w = make_world(sx, tt, oldlen)
     oldlen = w.oldlen
+    if tt.startswith("tt2"):
+        w.head = sx.mkbytes(list(w.sim.mem[0:16]), False)   # UID, lock, CC
     tag = w.fresh_tag()
     if tag is None:
         sx.check(False, "activate-returned-none:" + tt)
     burst = Burst(sx, kinds, lengths)
     pre_ndef = None
-    if op in ("write", "format", "formatwipe", "reread"):
+    if op in ("write", "writebig", "format", "formatwipe", "reread"):
         pre_ndef = tag.ndef          # fault-free part
         if pre_ndef is None:
             sx.check(False, "well-formed-layout-not-recognised:" + tt)
@@ -140,6 +142,14 @@ def op_faults(sx, tt, op, kinds, lengths):
             outcome = ("changed", pre_ndef.has_changed)
         elif op == "write":
             msg = sx.mkbytes([sx.int("msg[%d]" % i, 0x80, 0xFF) for i in range(7)], True)
+            pre_ndef.octets = msg
+            outcome = ("written",)
+        elif op == "writebig":
+            # a message that differs from the stored one on both sides of the
+            # 1 KiB sector boundary (message offset 1004): the first SECTOR
+            # SELECT of the operation happens while cached pages are written
+            msg = sx.mkbytes([(b ^ 0x55) if 996 <= i < 1012 else b
+                              for i, b in enumerate(w.old)], True)
             pre_ndef.octets = msg
             outcome = ("written",)
         elif op == "present":
@@ -175,6 +185,10 @@ def op_faults(sx, tt, op, kinds, lengths):
         sx.check(ok, "errno-does-not-match-error-kind:%s:%s" % (who, burst.kind))
         if absorbed_expected and not burst.at_sector_select:
             sx.check(False, "transient-burst-not-absorbed:%s:%s:len=%d" % (who, burst.kind, burst.length))
+        if op in ("read", "write", "writebig") and not tt.startswith("tt4"):
+            # the error is over (the burst is used up): the application repeats
+            # the operation through the same tag object
+            return ["error", op, burst.kind, repeat_after_error(sx, w, tag, pre_ndef, op, msg, who)]
         return ["error", op, burst.kind]
     # operation completed: absorbed, or a documented None/False result
     if burst.at_sector_select and burst.kind == "timeout":
@@ -187,10 +201,12 @@ def op_faults(sx, tt, op, kinds, lengths):
             sx.reach("read_gave_none")
             if absorbed_expected:
                 sx.check(False, "transient-burst-not-absorbed:%s:%s:len=%d" % (who, burst.kind, burst.length))
+            if not tt.startswith("tt4"):
+                return ["done", op, burst.kind, repeat_after_error(sx, w, tag, pre_ndef, op, msg, who)]
         else:
             sx.check(sx.eq(outcome[1], w.old), "read-result-differs-after-faults:" + who)
             sx.reach("absorbed")
-    elif op == "write":
+    elif op in ("write", "writebig"):
         w.sim.mute = False
         tag2 = w.fresh_tag()
         nd2 = tag2.ndef if tag2 is not None else None
@@ -208,6 +224,38 @@ def op_faults(sx, tt, op, kinds, lengths):
     else:
         sx.reach("absorbed" if outcome[1] is True else "documented_false_or_none")
     return ["done", op, burst.kind]
+
+
+def repeat_after_error(sx, w, tag, pre_ndef, op, msg, who):
+    """the operation failed with TagCommandError while the burst lasted; now
+    the link is fault-free again and the same tag object is used once more:
+    the repeated operation must give the fault-free result (the driver's
+    picture of the tag - selected sector, cached memory - must not have been
+    advanced by commands that were never answered)"""
+    w.sim.hook = None
+    w.sim.mute = False
+    sx.reach("repeated_after_error")
+    try:
+        if op == "read":
+            nd = tag.ndef
+            got = None if nd is None else nd.octets
+            if got is None:
+                sx.check(False, "repeated-read-after-error-gives-none:" + who)
+            sx.check(sx.eq(got, w.old), "repeated-read-after-error-differs:" + who)
+            return "read-ok"
+        pre_ndef.octets = msg
+    except nfc.tag.TagCommandError:
+        sx.check(False, "repeated-operation-fails-without-fault:" + who)
+    head = getattr(w, "head", None)
+    if head is not None:
+        sx.check(sx.eq(sx.mkbytes(list(w.sim.mem[0:len(head)]), False), head),
+                 "repeated-write-changed-bytes-in-front-of-the-data-area:" + who)
+    tag2 = w.fresh_tag()
+    nd2 = tag2.ndef if tag2 is not None else None
+    if nd2 is None:
+        sx.check(False, "ndef-gone-after-repeated-write:" + who)
+    sx.check(sx.eq(nd2.octets, msg), "repeated-write-after-error-differs:" + who)
+    return "write-ok"
 
 
 def passive_ack_step(w, burst):
@@ -236,7 +284,7 @@ def check_sends(sx, w, who):
 def partitions(tier):
     parts = []
     ops = {"tt2": ["read", "reread", "write", "present", "format", "protect", "dump"],
-           "tt2big": ["read"],
+           "tt2big": ["read", "writebig"],
            "tt1": ["read", "write", "present", "format", "protect", "dump"],
            "tt1dyn": ["read", "write", "format", "present"],
            "tt3": ["read", "write", "present", "dump"],
@@ -264,8 +312,9 @@ def partitions(tier):
 
 
 MUST_REACH = ["no_fault", "fault:timeout", "fault:transmission", "fault:protocol",
-              "absorbed", "ended_in_tag_command_error", "activation_with_fault"]
-BOUNDS = {"quick": "one burst (length 1..3, kind timeout/transmission/protocol, command or response lost) at every command position of read/write/presence/format/protect/dump on one small world per tag type",
+              "absorbed", "ended_in_tag_command_error", "activation_with_fault",
+              "repeated_after_error"]
+BOUNDS = {"quick": "one burst (length 1..3, kind timeout/transmission/protocol, command or response lost) at every command position of read/write/presence/format/protect/dump on one small world per tag type; after a read/write that ended in TagCommandError or None the operation is repeated fault-free through the same tag object (Type 1/2/3) and must give the fault-free result",
           "thorough": "burst lengths 1..4"}
-OUTSIDE = ["two separate bursts in one operation", "vendor specific tag classes other than Topaz/Topaz-512"]
+OUTSIDE = ["two separate bursts in one operation", "repeating an operation after an error on a Type 4 Tag (ISO-DEP state after a failed exchange: known finding of C12)", "vendor specific tag classes other than Topaz/Topaz-512"]
 ASSUMPTIONS = ["a failing exchange either never reaches the tag or is executed with the response lost"]
